@@ -43,6 +43,10 @@ static int g_fill = -1; /* SIMHEAP_FILL: byte value new (non-calloc) blocks are 
 static size_t g_big_min;
 static unsigned long g_big, g_fail_at, g_failed;
 static int g_fail_sticky;
+/* With SIMHEAP_ARM_ON_OUTPUT=1 the counting (and failing) starts only when libsimos.so reports the first attempt to
+ * open an output file: what happens to memory while the *inputs* are read is another property's business. */
+static int g_need_arm, g_armed;
+void simheap_arm(void) { g_armed = 1; }
 
 static uint64_t sm64(uint64_t *x) {
   uint64_t z = (*x += 0x9E3779B97F4A7C15ULL);
@@ -71,6 +75,8 @@ static void heap_init(void) {
   if (fa && fa[0]) g_fail_at = strtoul(fa, NULL, 10);
   const char *fs = getenv("SIMHEAP_FAIL_STICKY");
   g_fail_sticky = fs && fs[0] == '1';
+  const char *ao = getenv("SIMHEAP_ARM_ON_OUTPUT");
+  g_need_arm = ao && ao[0] == '1';
   const char *s = getenv("SIMHEAP_SEED");
   uint64_t seed = s ? strtoull(s, NULL, 10) : 1;
   uint64_t x = seed;
@@ -99,10 +105,11 @@ static void *alloc(size_t size, size_t align) {
   lock();
   heap_init();
   if (align < 16) align = 16;
-  if (g_big_min && size >= g_big_min) {
+  if (g_big_min && size >= g_big_min && (!g_need_arm || g_armed)) {
     g_big++;
     if (g_fail_at && (g_big == g_fail_at || (g_fail_sticky && g_big > g_fail_at))) {
       g_failed++;
+      if (getenv("SIMHEAP_FAIL_TRAP")) __builtin_trap();   /* debugging aid: stop where the failing request comes from */
       errno = ENOMEM;
       unlock();
       return NULL;
